@@ -59,6 +59,20 @@ func nav(root *generic.PathNode, items []PItem, opts *generic.Options, loadLast 
 			nx = cur.GetByStr(string(it.B), opts)
 		case "int":
 			nx = cur.GetByInt(int(fromBE8(it.B)), opts)
+		case "idx":
+			// the children of a list / set are stored by position
+			if it.N >= len(cur.Next) {
+				return nil, "nil"
+			}
+			nx = &cur.Next[it.N]
+		case "bin":
+			// maps keyed by anything but strings and integers: the child whose path carries the key's encoding
+			for j := range cur.Next {
+				if cur.Next[j].Path.Type() == generic.PathBinKey && string(cur.Next[j].Path.ToRaw(0)) == string(it.B) {
+					nx = &cur.Next[j]
+					break
+				}
+			}
 		default:
 			return nil, "err"
 		}
@@ -266,7 +280,15 @@ func domItems(v *Val, r *rand.Rand) (valid []PItem, kids []*Val) {
 			case v.KT == tI16 || v.KT == tI32 || v.KT == tI64:
 				valid = append(valid, PItem{K: "int", B: signExt8(p.K.B)})
 				kids = append(kids, p.V)
+			case v.KT != tI8:
+				valid = append(valid, PItem{K: "bin", B: B(p.K.Enc(nil))})
+				kids = append(kids, p.V)
 			}
+		}
+	case tLIST, tSET:
+		for i, e := range v.E {
+			valid = append(valid, PItem{K: "idx", N: i, B: B{}})
+			kids = append(kids, e)
 		}
 	}
 	return
@@ -361,7 +383,7 @@ func (c *c05) genRandom(seed int64, base, n int) {
 			valid, kids := domItems(cont, r)
 			x := r.Intn(10)
 			switch {
-			case x < 3 && len(valid) > 0: // replace existing child
+			case x < 3 && len(valid) > 0 && valid[0].K != "idx" && valid[0].K != "bin": // replace existing child (the tree has setters for fields, string and integer keys)
 				j := r.Intn(len(valid))
 				dc.Ops = append(dc.Ops, DomOp{Op: "Set", Path: pp, Item: valid[j], Sub: subOf(randLike(r, kids[j], 2, cfg))})
 			case x < 6 && (cont.T == tSTRUCT || (cont.T == tMAP && (cont.KT == tSTR || cont.KT == tI16 || cont.KT == tI32 || cont.KT == tI64))):
